@@ -563,7 +563,7 @@ TV = "translation_validation"
 REGISTRY = {
     "C13": Spec("FFSM2.Props.C13", ["bitwidth", "contain", "typebits", "buffers"], container_run(["bitstream"])),
     "C14": Spec("FFSM2.Props.C14", ["halving", "find", "ids"], c14_run, extra=("FFSM2.Props.DispatchHistory",)),
-    "C15": Spec("FFSM2.Props.C15", ["layers"], c15_run),
+    "C15": Spec("FFSM2.Props.C15", ["layers"], c15_run, extra=("FFSM2.Props.LayersHistory",)),
     "C20": Spec("FFSM2.Props.C20", ["contain", "buffers"], container_run(["bitarray", "static", "dynamic"])),
     "C10": Spec("FFSM2.Props.C10", ["config", "ids"], c10_run, extra=("FFSM2.Props.History", "FFSM2.Props.PlanHistory")),
     "C18": Spec("FFSM2.Props.C18", [], c18_run, level="other", explanation="Partial by nature: a theorem about a model cannot exhibit heap allocation or undefined behaviour of compiled C++. Executed here: both correspondence harnesses rebuilt with ASan+UBSan (-fno-sanitize-recover=all) and run on generated in-contract histories (payloads of alignment 1/8/16, plans at full capacity, n=1..7 quick / up to 64 thorough); a valgrind memcheck pass of the machine harness with the memory under every fresh instance marked indeterminate; an allocation probe that wraps malloc/calloc/realloc/free and operator new/delete around a scenario touching the whole API; thorough: nm -u symbol scan. The model-side index/range/alignment theorems are listed in DESIGN.md §9 C18."),
